@@ -105,7 +105,18 @@ impl Node {
     /// Boots (or re-opens) a node on `dir`.
     pub fn boot(dir: &Path, opts: &NodeOpts) -> Result<Node, String> {
         std::fs::create_dir_all(dir).map_err(|e| e.to_string())?;
-        let db_config = DBConfig { path: dir.join("db"), ..Default::default() };
+        // production's RocksDB options file plus allow_fallocate=false: the scratch lives on tmpfs,
+        // where the default 70 MB write-ahead-log preallocation of every open database is real memory
+        let opt_file = dir.join("db-options");
+        if !opt_file.exists() {
+            let base = std::fs::read_to_string("/repo/resource/default.db-options").map_err(|e| format!("resource/default.db-options: {e}"))?;
+            let text = base.replacen("[DBOptions]\n", "[DBOptions]\nallow_fallocate=false\n", 1);
+            if !text.contains("allow_fallocate=false") {
+                return Err("resource/default.db-options has no [DBOptions] section".into());
+            }
+            std::fs::write(&opt_file, text).map_err(|e| e.to_string())?;
+        }
+        let db_config = DBConfig { path: dir.join("db"), options_file: Some(opt_file), cache_size: Some(8 << 20), ..Default::default() };
         if let Some(a) = &opts.ancient {
             std::fs::create_dir_all(a).map_err(|e| e.to_string())?;
         }
